@@ -37,6 +37,7 @@ inductive Op
   | chan (r : Nat) (steps : List C16.Step)
   | filter (g : Nat) (msgs : List C16.Id)
   | seq (g m : Nat)
+  | flood (n : Nat)
 
 def parseOp (line : String) : Option Op :=
   match line.splitOn " " with
@@ -49,6 +50,9 @@ def parseOp (line : String) : Option Op :=
     let g ← parseSmall g
     let ms ← (splitList ids).mapM parseId
     if 1 ≤ g then pure (.filter g ms) else none
+  | ["flood", n] => do
+    let k ← n.toNat?
+    if n.all Char.isDigit && k ≤ 200000 then pure (.flood k) else none
   | ["seq", be, g, m] => do
     let g ← parseSmall g
     let m ← m.toNat?
@@ -63,6 +67,9 @@ def model (line : String) : String :=
   | some (.chan r ss) => showChan (C16.runChan r ss)
   | some (.filter _ ms) => showIds "," (C16.sortIds (ms.eraseDups))
   | some (.seq g m) => s!"n={g * m} distinct=true min=1 max={g * m} mono=true"
+  -- n + 2 sequential calls, n + 1 distinct ids: by `at_most_once` / `exactly_once_when_finished`
+  -- (the cache is never pruned) the repeated id is delivered once, every id once
+  | some (.flood n) => s!"first=1 total={n + 1}"
   | none => "bad-op"
 
 def parseIdList (sep : String) (s : String) : Option (List C16.Id) :=
@@ -96,6 +103,9 @@ def monitor (op obs : String) : String :=
     | some o => if C16.holdsFilter ms o then "ok"
                 else if !C16.nodupB o then "FAIL delivered-twice" else "FAIL filter-lost-or-invented-a-message"
     | none => "FAIL unparsable-observation"
+  | some (.flood n) =>
+    if obs = s!"first=1 total={n + 1}" then "ok"
+    else if obs.startsWith "first=2" then "FAIL delivered-twice-after-long-history" else "FAIL filter-lost-or-invented-a-message"
   | some (.seq g m) =>
     if obs = s!"n={g * m} distinct=true min=1 max={g * m} mono=true" then "ok" else "FAIL seqno-not-fresh"
 
